@@ -28,6 +28,7 @@ static inline int myth_spin_lock_body(myth_spinlock_t *lock) {
   int failed = 0;
   while (!myth_spin_trylock_body(lock)) {
     failed++;
+    MYTH_VERIF_SPIN(MYTH_VS_SPIN_LOOP);
   }
   return failed;
 }
@@ -37,6 +38,7 @@ static inline int myth_compare_and_set_int(volatile int * a, int oldv, int newv)
 }
 
 static inline int myth_spin_trylock_body(myth_spinlock_t *lock) {
+  MYTH_VERIF_POINT(MYTH_VS_SPIN_TRY);
   if (myth_compare_and_set_int(&lock->locked, 0, 1)) {
     myth_rwbarrier();
     return 1;
@@ -47,6 +49,7 @@ static inline int myth_spin_trylock_body(myth_spinlock_t *lock) {
 
 static inline int myth_spin_unlock_body(myth_spinlock_t *lock) {
   myth_rwbarrier();
+  MYTH_VERIF_POINT(MYTH_VS_SPIN_UNLOCK);
   lock->locked = 0;
   return 0;
 }
